@@ -331,7 +331,10 @@ func (x *Exec) atLoopHead(st *State, f *Frame, li *LoopInfo) bool {
 			}
 		}
 	}
-	entry := &LoopEntry{trace: st.trace, ordinal: li.ordinal}
+	entry := &LoopEntry{trace: st.trace, ordinal: li.ordinal, cells: map[*Cell]Val{}}
+	for k, v := range st.cells {
+		entry.cells[k] = v
+	}
 	if spec != nil {
 		ctx2 := x.newSpecCtx(st, f, f.fn)
 		ctx2.loop = li
@@ -392,6 +395,9 @@ func (x *Exec) havocCell(st *State, c *Cell) {
 	}
 	nv := st.Fresh(c.name, t.Sort)
 	nv.T = c.typ
+	if st.views[t.S] {
+		st.views[nv.S] = true
+	}
 	st.cells[c] = nv
 	x.assumeWF(st, nv)
 }
